@@ -277,6 +277,122 @@ def drv_pipeline(tier, rng):
     return groups
 
 
+# ---------------------------------------------------------------- C08 relations between runs
+def cheap_bias(rng, kind, m):
+    P = pipeline.PU
+    if kind == 'criteriaOmission':
+        return {'name': kind, 'props': {'ratio': rng.choice([P // 4, P // 2]), 'max': 1, 'ordering': rng.choice(['weakest', 'strongest'])}}
+    if kind == 'preferenceReversal':
+        return {'name': kind, 'props': {'ratio': rng.choice([P // 4, P // 2, P]), 'ordering': rng.choice(['weakest', 'strongest'])}}
+    return {'name': 'fatigue', 'props': {'function': 'const', 'params': {'value': rng.choice([0, P // 4])}, 'randomSeed': rng.randint(0, 99)}}
+
+
+def drv_c08(tier, rng):
+    P = pipeline.PU
+    groups = []
+    N = 60 if tier == 'quick' else 1200
+    kinds = ['criteriaOmission', 'preferenceReversal', 'fatigue']
+    probs = [0, P // 4, P // 2, 3 * P // 4, P, None]
+    for _ in range(N):
+        req = pipeline.gen_data(rng, rng.choice(pipeline.METHODS), m=rng.randint(3, 4))
+        m = len(req['criteria'])
+        L = rng.randint(1, 4)
+        base = []
+        for _i in range(L):
+            b = cheap_bias(rng, rng.choice(kinds), m)
+            pr = rng.choice(probs)
+            if pr is not None:
+                b['applyProbability'] = pr
+            base.append(b)
+        seeds = [rng.randint(0, 10 ** 6)]
+        g = []
+
+        def member(biases, same=False):
+            r = copy.deepcopy(req)
+            r['biases'] = biases
+            r['biasApplyRandomSeed'] = seeds[0]
+            grp = {'id': 'x', 'rel': 'c08', 'p': 'C08'}
+            if same:
+                grp['sameAsFirst'] = True
+            g.append(pcase(r, via='http', probe=False, failprop='C08', methodref=False, group=grp))
+        member(copy.deepcopy(base))
+        # others changed: different kinds/props at every position, own probabilities kept
+        other = []
+        for b in base:
+            nb = cheap_bias(rng, rng.choice(kinds), m)
+            if 'applyProbability' in b:
+                nb['applyProbability'] = b['applyProbability']
+            other.append(nb)
+        member(other)
+        # probabilities raised / lowered
+        for delta in (P // 4, -(P // 4)):
+            mod = copy.deepcopy(base)
+            for b in mod:
+                b['applyProbability'] = min(P, max(0, b.get('applyProbability', P) + delta))
+            member(mod)
+        # disabled entries (one with an unknown name) inserted: equivalent to leaving them out
+        withdis = []
+        for b in copy.deepcopy(base):
+            if rng.random() < 0.6:
+                d = cheap_bias(rng, rng.choice(kinds), m)
+                d['disabled'] = True
+                if rng.random() < 0.4:
+                    d['name'] = 'noSuchBias'
+                withdis.append(d)
+            withdis.append(b)
+        withdis.append({'name': 'alsoUnknown', 'disabled': True})
+        member(withdis, same=True)
+        groups.append(g)
+    # frequency: many seeds, three always-harmless biases with probability 1/4, 1/2, 3/4
+    nseeds = 600 if tier == 'quick' else 4000
+    req = pipeline.gen_data(rng, 'weightedSum', n=2, m=2, extra=0)
+    g = []
+    for sd in range(nseeds):
+        r = copy.deepcopy(req)
+        r['biasApplyRandomSeed'] = 1000 + sd * 7919
+        r['biases'] = [{'name': 'fatigue', 'applyProbability': k * P // 4,
+                        'props': {'function': 'const', 'params': {'value': 0}, 'randomSeed': 1}} for k in (1, 2, 3)]
+        g.append(pcase(r, via='http', probe=False, failprop='C08', methodref=False, digestOnly=True, bias=False,
+                       group={'id': 'x', 'rel': 'c08freq', 'p': 'C08'}))
+    groups.append(g)
+    return groups
+
+
+# ---------------------------------------------------------------- C09: statelessness
+def drv_c09(tier, rng):
+    """fragile configurations (current choice among the considered, everything considered, reversal with
+    nothing unconsidered, fatigue before a heuristic), each through JSON-decoded and exact-capacity inputs, plus
+    histories: the same request again after other requests must be answered identically"""
+    P = pipeline.PU
+    groups = []
+    N = 40 if tier == 'quick' else 600
+    for _ in range(N):
+        hist = []
+        first = None
+        for j in range(rng.randint(3, 5)):
+            mth = rng.choice(['majorityHeuristic', 'satisfactionHeuristic', 'aspectEliminationHeuristic', 'weightedSum', 'electreIII', 'owa', 'choquetIntegral'])
+            req = pipeline.gen_data(rng, mth, extra=rng.choice([0, 0, 1]))
+            if mth in ('majorityHeuristic', 'satisfactionHeuristic') and rng.random() < 0.7:
+                req['methodParameters']['currentChoice'] = rng.choice(req['choseToMake'])
+            seq = rng.choice([['fatigue'], ['preferenceReversal'], ['fatigue', 'preferenceReversal'], ['criteriaConcealment', 'fatigue'],
+                              ['anchoring'], ['criteriaMixing', 'criteriaOmission'], []])
+            m_now = len(req['criteria'])
+            for name in seq:
+                b = pipeline.gen_bias(rng, name, req, m_now)
+                if name == 'criteriaOmission':
+                    b['props']['max'] = 1
+                    b['props'].pop('min', None)
+                req['biases'].append(b)
+            if first is None:
+                first = req
+            hist.append(req)
+        hist.append(copy.deepcopy(first))
+        via = rng.choice(['lib', 'libexact'])
+        g = [pcase(r, via=via, failprop='C09', group={'id': 'x', 'rel': 'samereq', 'p': 'C09'}) for r in hist]
+        groups.append(g)
+    return groups
+
+
 def nt_ties(o):
     """non-trivial for ranking shape: at least two entries and at least one tie or two levels"""
     r = o.get('resp', {}).get('result', [])
@@ -330,6 +446,12 @@ FAMILIES = {
     'pipeline': {
         'mode': 'decide', 'trace': 'Trace_Decide', 'drivers': [drv_pipeline],
     },
+    'c09': {
+        'mode': 'decide', 'trace': 'Trace_Decide', 'drivers': [drv_c09],
+    },
+    'c08': {
+        'mode': 'decide', 'trace': 'Trace_Decide', 'drivers': [drv_c08],
+    },
     'majority': {
         'mc': 'MC_Majority',
         'mc_cfg': {'quick': 'MC_Majority_quick.cfg', 'thorough': 'MC_Majority_thorough.cfg'},
@@ -365,6 +487,10 @@ def nt_pipeline(o):
 
 
 PROPS = {
+    'C09': {'families': ['c09', 'pipeline'], 'nontrivial': nt_pipeline,
+            'rule': 'non-trivial = library-path decision in which at least one bias fired (reports and handed-on states exist to be compared); distinct by request'},
+    'C08': {'families': ['c08', 'pipeline'], 'nontrivial': lambda o: len(o['case']['req'].get('biases', [])) >= 1 and o.get('status') == 200,
+            'rule': 'non-trivial = accepted request with at least one requested bias; distinct by request (seed included)'},
     'C19': {'families': ['pipeline'], 'nontrivial': lambda o: any(e.get('fired') and 'perReferencePointsDifferences' in str(e.get('report')) for e in o.get('events', [])),
             'rule': 'non-trivial = request in which an anchoring bias fired; distinct by request'},
     'C18': {'families': ['pipeline'], 'nontrivial': lambda o: any(e.get('fired') and ('addedCriteria' in str(e.get('report')) or 'component1' in str(e.get('report'))) for e in o.get('events', [])),
